@@ -538,6 +538,25 @@ func voteTraps() []*VScenario {
 		sc.Steps = append(sc.Steps, votes("cheque", VStep{ID: "i1", Payee: "p2", Amt: 60}, all, []int{1})...)
 		out = append(out, sc)
 	}
+	// two decisions in flight: an older live ballot of a setConfig round while a candidate removal reaches its quorum
+	// (the removal must clear its own ballot only), then the removal of the re-registered candidate starts from zero
+	// (seeded change C17d)
+	for n := 2; n <= 7; n++ {
+		thr := n*2/3 + 1
+		var all []string
+		for i := 1; i <= n; i++ {
+			all = append(all, keyName(i))
+		}
+		sc := &VScenario{N: n, Src: "trap:cross" + strconv.Itoa(n)}
+		sc.Steps = append(sc.Steps, votes("setConfig", cfg, all[:thr-1], []int{1})...)
+		sc.Steps = append(sc.Steps, VStep{Act: "candAdd", S: []string{"c1"}, Cand: "c1", Gap: 1})
+		sc.Steps = append(sc.Steps, votes("candRemove", VStep{Cand: "c1"}, all[:thr], []int{1})...)
+		sc.Steps = append(sc.Steps, votes("setConfig", cfg, all[thr-1:thr], []int{1})...)
+		sc.Steps = append(sc.Steps, VStep{Act: "candAdd", S: []string{"c1"}, Cand: "c1", Gap: 1})
+		sc.Steps = append(sc.Steps, votes("candRemove", VStep{Cand: "c1"}, all[:1], []int{1})...)
+		sc.Steps = append(sc.Steps, votes("candRemove", VStep{Cand: "c1"}, all[:1], []int{1})...)
+		out = append(out, sc)
+	}
 	// the list shrinks while a round is open (the open round is outside the statement: never judged, but the Spec must follow)
 	out = append(out, &VScenario{N: 4, Src: "trap:shrink", Steps: append(append(
 		votes("setConfig", cfg, []string{"k1", "k2"}, []int{1}),
